@@ -17,10 +17,13 @@ using namespace c10;
 
 namespace tol
 {
-// calibrated on the unchanged tree (thorough tier), see the final lines of this file for the worst ratios
-static const double unit  = 32;
-static const double maps  = 64;
-static const double ortho = 64;
+// Calibrated on the unchanged tree (thorough tier, seed 1: 4e7 float / 2e7 double pairs), over all paths except
+// path_two_step_halfway_vector_is_rounding_noise (reported defect, see the property's report); with the proposed
+// fix that path shows the same figures.  worst = float / double; every constant is >= 8x the worst.
+static const double unit    = 32;  // | |q| - 1 | <= C eps                      worst 3.56 / 3.52
+static const double maps    = 64;  // |q f q* - t|_2 <= C eps                   worst 4.83 / 4.61
+static const double rotmaps = 128; // |f M - t|_2 <= C eps                      worst 13.8 / 13.5 (M built from q with |q| = 1 + 3.5 eps)
+static const double ortho   = 256; // |M M^T - I|_max <= C eps                  worst 27.0 / 27.6
 } // namespace tol
 
 template <class T> static inline double E () { return eps_of<T>::value; }
@@ -224,7 +227,7 @@ sub_setrot (Ctx& c, uint64_t idx)
         return Obj ().raw ("from", vjson (from)).raw ("to", vjson (to)).arr ("from_direction_times_M", g, 3).arr ("to_direction", w, 3).kv ("max|M M^T - I|", (double) orth).kv ("det", (double) det).str ();
     };
     J ("rotationMatrix.orthonormal", nan ? NAN : (double) orth / E<T> (), tol::ortho, descm);
-    J ("rotationMatrix.maps", nan ? NAN : (double) hp::sqrt (e2) / E<T> (), tol::maps, descm);
+    J ("rotationMatrix.maps", nan ? NAN : (double) hp::sqrt (e2) / E<T> (), tol::rotmaps, descm);
     if (!(det > 0)) c.fail (std::string ("rotationMatrix.") + tname<T> () + ":determinant_not_positive", idx, descm);
     if (idx % 1039 == 0) c.sample (kAlphaClass[ac], desc);
 }
@@ -246,5 +249,5 @@ setrot_req ()
     return v;
 }
 #define SR_SPACE "from: 6 direction classes (generic, coordinate axes, equal-magnitude components, tiny components 1e-3..1e-25, ordered components, integer lattice) x length e^-5..e^5 (or 2^-7..2^7); to: at angle uniform in [0,pi] | 1e-k | pi/2 +- 1e-k | pi - 1e-k (every k = 1..15, mantissa 1 or in [1,10)) | exactly pi | pi up to rounding | 0, in a random plane, length e^-5..e^5"
-MON_SUB_IDX (sub_setrot<float>, "set_rotation.float", 2000000, 60000000).req (setrot_req ()).over (SR_SPACE);
-MON_SUB_IDX (sub_setrot<double>, "set_rotation.double", 1000000, 40000000).req (setrot_req ()).over (SR_SPACE);
+MON_SUB_IDX (sub_setrot<float>, "set_rotation.float", 2000000, 40000000).req (setrot_req ()).over (SR_SPACE);
+MON_SUB_IDX (sub_setrot<double>, "set_rotation.double", 1000000, 20000000).req (setrot_req ()).over (SR_SPACE);
